@@ -2,6 +2,7 @@ package main
 
 import (
 	"bytes"
+	"context"
 	"encoding/json"
 	"flag"
 	"fmt"
@@ -156,12 +157,19 @@ func isolatedExec(eng Engine, c interface{}, st *Stats) (*Violation, interface{}
 	if childBin != "" {
 		self = childBin
 	}
-	cmd := exec.Command(self, "exec", "--engine", eng.Name(), "--case", path, "--out", path+".out")
+	timeout := time.Duration(atoi(os.Getenv("VERIF_CHILD_TIMEOUT_S"), 240)) * time.Second
+	ctx, cancel := context.WithTimeout(context.Background(), timeout)
+	defer cancel()
+	cmd := exec.CommandContext(ctx, self, "exec", "--engine", eng.Name(), "--case", path, "--out", path+".out")
 	var stderr bytes.Buffer
 	cmd.Stderr = &stderr
 	cmd.Env = os.Environ()
 	err = cmd.Run()
 	code := 0
+	if ctx.Err() == context.DeadlineExceeded {
+		st.Runs++
+		return &Violation{Property: eng.Property(), Class: "process_wedged", Detail: fmt.Sprintf("the case did not finish within %s in a process of its own (every engine bounds evaluation steps, so the time is spent inside otto's Go code)", timeout)}, c, true
+	}
 	if err != nil {
 		if ee, ok := err.(*exec.ExitError); ok {
 			code = ee.ExitCode()
@@ -216,6 +224,9 @@ func crashViolation(eng Engine, code int, stderr string) *Violation {
 			top = append(top, m[1])
 		}
 		return &Violation{Property: prop, Class: "data_race", Detail: "race detector report; first otto frames: " + strings.Join(top, " | ") + "\n" + firstLines(stderr, 40)}
+	}
+	if strings.Contains(stderr, "batch child wedged") {
+		return &Violation{Property: prop, Class: "process_wedged", Detail: firstLines(stderr, 3)}
 	}
 	if strings.Contains(stderr, "goroutine stack exceeds") || strings.Contains(stderr, "stack overflow") {
 		return &Violation{Property: prop, Class: "go_stack_exhausted", Detail: firstLines(stderr, 12)}
@@ -675,6 +686,10 @@ func checkMain(a map[string]string) int {
 		childBin = self
 	}
 
+	childTimeout = budget + 150*time.Second
+	if tier == "quick" && childTimeout > 240*time.Second {
+		childTimeout = 240 * time.Second
+	}
 	total := NewStats()
 	var mu sync.Mutex
 	var firstViol *BatchResult
@@ -852,6 +867,8 @@ func checkMain(a map[string]string) int {
 	return 0
 }
 
+var childTimeout time.Duration
+
 var (
 	childMu   sync.Mutex
 	children  = map[*exec.Cmd]bool{}
@@ -887,7 +904,30 @@ func runChild(self string, args []string, out string) (*BatchResult, int, string
 	}
 	children[cmd] = true
 	childMu.Unlock()
+	timedOut := false
+	var timer *time.Timer
+	if childTimeout > 0 {
+		timer = time.AfterFunc(childTimeout, func() {
+			childMu.Lock()
+			timedOut = true
+			childMu.Unlock()
+			cmd.Process.Kill()
+		})
+	}
 	err = cmd.Wait()
+	if timer != nil {
+		timer.Stop()
+	}
+	childMu.Lock()
+	to := timedOut
+	childMu.Unlock()
+	if to {
+		childMu.Lock()
+		delete(children, cmd)
+		childMu.Unlock()
+		os.Remove(out)
+		return nil, 124, "fatal error: batch child wedged: it did not finish within " + childTimeout.String() + " (killed by the parent)"
+	}
 	childMu.Lock()
 	delete(children, cmd)
 	wasCancelled := cancelled
